@@ -88,3 +88,29 @@ META = {
     ["UB that neither sanitizer instruments nor changes output is not seen (e.g. isspace on negative char)"],
     {"quick": {"plain": 12, "san": 25, "dbg": 12}, "thorough": {"plain": 300, "san": 900, "dbg": 300}}),
 }
+
+# Quick tier: the search budget is a number of simulated runs per flavour (about 80 % of what an idle 16-core machine does in the
+# nominal time of the budget table), so that the work done - and the evidence written - does not depend on how loaded or how fast
+# the machine is; the nominal time times QUICK_TIME_CAP is only the upper limit.  The thorough tier is time-based.
+QUICK_TIME_CAP = 2.5
+RUNS_QUICK = {
+ "C01": {"plain": 45000, "san": 2200},
+ "C02": {"plain": 140000, "san": 5400},
+ "C03": {"plain": 140000, "san": 6000},
+ "C04": {"plain": 130000, "san": 5700},
+ "C05": {"plain": 140000, "san": 5800},
+ "C06": {"plain": 160000, "san": 6300},
+ "C07": {"plain": 31000, "san": 1200},
+ "C08": {"plain": 14000, "san": 920},
+ "C09": {"plain": 75000, "san": 3600},
+ "C10": {"plain": 130000, "san": 5800},
+ "C11": {"plain": 87000, "san": 4200},
+ "C12": {"plain": 170000, "san": 6800},
+ "C13": {"plain": 11000, "san": 230},
+ "C14": {"plain": 170000, "san": 6400},
+ "C15": {"plain": 160000, "san": 6500},
+ "C17": {"plain": 19000, "san": 1000},
+ "C18": {"plain": 24000, "san": 1400},
+ "C19": {"plain": 13000, "san": 780},
+ "C20": {"plain": 25000, "san": 8000, "dbg": 5000},
+}
